@@ -131,6 +131,7 @@ class EWorld(seq.World):
         self.pending = {}        # (a, p) -> request
         self.job_t0 = {}         # id(job) -> clock at before()
         self.sent_in_frames = 0
+        self.last_crash = None
 
     def tick(self):
         self.clock += 1
@@ -431,7 +432,8 @@ class EWorld(seq.World):
         except Exception as exc:
             while self.frames:          # frames are closed by their finally clauses; defensive
                 self.frames.pop()
-            return ('crash', svenv.crash_kind(exc))
+            self.last_crash = svenv.crash_kind(exc)
+            return ('crash', self.last_crash)
         starts = [x[1:] for x in self.rec.outs if x[0] == 'start']
         if len(starts) != self.sent_in_frames - before:
             self.anomaly = True
@@ -442,7 +444,7 @@ class EWorld(seq.World):
 
     def result(self):
         return {'decisions': list(self.decisions), 'befores': list(self.befores), 'adds': list(self.adds),
-                'anomaly': bool(self.anomaly)}
+                'anomaly': bool(self.anomaly), 'crash': self.last_crash}
 
 
 _WORLD = None
@@ -774,6 +776,22 @@ def witness_reentrancy():
     return {'cf': cf, 'ops': [(('StartApps',), 1000), (('StartProc', 0, 1, 2), 1001)]}
 
 
+def probe_lost_target():
+    """ NOT in the corpus (instance states do not change during the generated runs): candidate finding outside C04's
+    quantifier. SINGLE_INSTANCE application {p1: seq 1, p2: seq 2}, rule [2, 1]: instance 2 is chosen by before();
+    it is lost after p1 was requested; p2, planned with the pre-assigned identifier, is then requested on instance 2
+    although the requester does not see it RUNNING any more. Returns the recorded decisions. """
+    w = world()
+    cf = {'now': 1000, 'insts': base_insts({1, 2}), 'nodes': [(1, [1, 3, 5]), (2, [2, 4, 6])], 'stereotypes': [],
+          'ballast': [],
+          'apps': [{'name': 1, 'managed': True, 'start': 1, 'strategy': 0, 'dist': 1, 'rule': [2, 1],
+                    'procs': [proc_cf(1, 10, 1), proc_cf(2, 10, 2)]}]}
+    w.reset_world(cf)
+    for o in [('StartApp', 0, 1), ('CtxInvalidate', [2]), ('CmdInvalidate',), ('Check',)]:
+        w.run_one(o, 1001)
+    return [(d['cmd'][:4], d['obs'], [x[:2] for x in d['layout']['insts']]) for d in w.decisions]
+
+
 # ---------------------------------------------------------------- the suite
 class EligibilitySuite(Suite):
     name = 'eligibility'
@@ -784,7 +802,7 @@ class EligibilitySuite(Suite):
              'known:c04-cross-application-pending-load': 'known_cross_application',
              'known:c03-noresource-reentrancy': 'known_noresource_reentrancy'}
     shard_size = 50
-    quick_cases = 700
+    quick_cases = 600
     thorough_cases = 12000
 
     def generate(self, rng, tier):
@@ -822,7 +840,7 @@ class EligibilitySuite(Suite):
                                             'foreign': d['foreign'], 'orphans': d['orphans'], 'ondemand': d['ondemand'],
                                             'pending': d['pending']} for d in obs['decisions']],
                              'befores': len(obs['befores']), 'adds': [a['obs'] for a in obs['adds']],
-                             'anomaly': obs['anomaly']}}
+                             'anomaly': obs['anomaly'], 'crash': obs['crash']}}
 
     def from_description(self, desc):
         cf = dict(desc['cf'])
@@ -887,7 +905,7 @@ class EligibilitySuite(Suite):
             d['befores'] += len(obs['befores'])
             d['adds'] += len(obs['adds'])
             d['adds_refused'] += sum(1 for a in obs['adds'] if a['obs'][0] == 'ok' and not a['obs'][1][0])
-            d['crashed_runs'] += len(obs['ops']) < len(inp.get('ops') or [])
+            d['crashed_runs'] += obs['crash'] is not None
             for o, _ in obs['ops']:
                 d['ops'][o[0]] = d['ops'].get(o[0], 0) + 1
             for dc in obs['decisions']:
